@@ -3,6 +3,7 @@ package c12
 import (
 	"bytes"
 	"fmt"
+	"github.com/gauss-project/aurorafs/pkg/localstore"
 	"testing"
 
 	"pgregory.net/rapid"
@@ -86,7 +87,21 @@ func run(c nlhist.Case) (sig string, err error, st stats) {
 			pinsBefore, _ = w.N.PinCounts()
 			storedBefore, _ = w.N.Stored()
 		}
+		if op.K == "gc" && op.Flag {
+			// the file is read while the run is between choosing its candidates and deleting them
+			// (the store's interleaving hook): the run has to skip it as in use
+			mf := w.Files[op.F%len(w.Files)]
+			localstore.VerifSetGCHooks(func() {
+				localstore.VerifSetGCHooks(nil, nil)
+				if mf.Known && !mf.Uploaded && mf.Complete() {
+					w.N.DownloadHTTP(mf.Ref, mf.Name)
+					st.classes["file-read-inside-collection-run"] = true
+				}
+				w.N.DB.VerifWaitUpdateGC()
+			}, nil)
+		}
 		res := w.Apply(op)
+		localstore.VerifSetGCHooks(nil, nil)
 		if res.Skipped {
 			st.classes["skipped-"+op.K] = true
 			continue
@@ -234,7 +249,11 @@ func TestC12_SharingDense(t *testing.T) {
 			case "deleteB":
 				return nlhist.Op{K: "delete", F: 1}
 			}
-			return nlhist.Op{K: "gc", Arg: rapid.SampledFrom([]int{1, 2, 4, 6, 9}).Draw(t, "cap")}
+			g := nlhist.Op{K: "gc", Arg: rapid.SampledFrom([]int{1, 2, 4, 6, 9}).Draw(t, "cap")}
+			if rapid.Bool().Draw(t, "midread") {
+				g.Flag, g.F = true, rapid.SampledFrom([]int{0, 2}).Draw(t, "midfile")
+			}
+			return g
 		})
 		// the chunk counts as "stored by local upload" only when the upload comes before the
 		// downloads that share it, so that order is drawn with probability 1/2 up front
@@ -256,10 +275,65 @@ func TestC12_SharingDense(t *testing.T) {
 	})
 }
 
+// TestC12_ReadInsideRun: backbone "upload B, download A sharing a chunk with B, a collection run during
+// which A is read (so the run must skip it), another run" with each step kept with probability 3/4
+// and 0-2 free ops in between.
+func TestC12_ReadInsideRun(t *testing.T) {
+	r := evid.Get(id)
+	evid.Finish(t, r)
+	evid.Checks(70)
+	rapid.Check(t, func(t *rapid.T) {
+		x := rapid.IntRange(0, 2).Draw(t, "x")
+		cached := nodelite.FileSpec{Tags: []int{x}, Tail: rapid.SampledFrom([]int{0, 9}).Draw(t, "tail0")}
+		if rapid.Bool().Draw(t, "twice") {
+			cached.Tags = append(cached.Tags, x)
+		}
+		local := nodelite.FileSpec{Tags: []int{x}, Tail: rapid.SampledFrom([]int{9, 4096}).Draw(t, "tail1"), Salt: 1}
+		other := nodelite.FileSpec{Tags: []int{(x + 1) % 3}, Tail: 9, Salt: 0}
+		c := nlhist.Case{Files: []nodelite.FileSpec{cached, local, other}}
+		free := rapid.Custom(func(t *rapid.T) nlhist.Op {
+			switch rapid.SampledFrom([]string{"fetchC", "readA", "gc", "pinB", "unpinB", "restart", "deleteC"}).Draw(t, "k") {
+			case "fetchC":
+				return nlhist.Op{K: "fetch", F: 2}
+			case "readA":
+				return nlhist.Op{K: "read", F: 0}
+			case "pinB":
+				return nlhist.Op{K: "pin", F: 1, Flag: true}
+			case "unpinB":
+				return nlhist.Op{K: "unpin", F: 1, Flag: true}
+			case "restart":
+				return nlhist.Op{K: "restart"}
+			case "deleteC":
+				return nlhist.Op{K: "delete", F: 2}
+			}
+			return nlhist.Op{K: "gc", Arg: rapid.SampledFrom([]int{1, 4, 9}).Draw(t, "cap")}
+		})
+		backbone := []nlhist.Op{{K: "upload", F: 1}, {K: "fetch", F: 0}, {K: "gc", Arg: rapid.SampledFrom([]int{1, 1, 2, 4}).Draw(t, "cap1"), Flag: true, F: 0},
+			{K: "gc", Arg: 1}, {K: "gc", Arg: 1, Flag: true, F: 0}}
+		for _, b := range backbone {
+			c.Ops = append(c.Ops, rapid.SliceOfN(free, 0, 2).Draw(t, "gap")...)
+			if rapid.IntRange(0, 3).Draw(t, "keep") != 0 {
+				c.Ops = append(c.Ops, b)
+			}
+		}
+		c.Ops = append(c.Ops, nlhist.Op{K: "gc", Arg: 1})
+		sig, err, st := run(c)
+		if err != nil {
+			t.Fatalf("%s", evid.Violation(id, sig, fmt.Sprintf("%v\ncase=%+v", err, c)))
+		}
+		cls := []string{"read-inside-run-backbone"}
+		for k := range st.classes {
+			cls = append(cls, k)
+		}
+		r.Case(evid.Hash64("midread", c), st.classes["file-read-inside-collection-run"], cls...)
+		r.Sample(c)
+	})
+}
+
 func TestC12_GCKeepsPinnedAndUploaded(t *testing.T) {
 	r := evid.Get(id)
 	evid.Finish(t, r)
-	r.SetRule("rapid: node-lite histories (2-4 files built from shared/repeated 256 KiB chunk templates; ops upload with/without pin header, cached download of chunk subsets from a source node via the calls retrieval makes, pin/unpin through HTTP and the pinning service, HTTP reads, delete, restart, synchronous GC runs with capacity 1-8 repeated until done); oracle around every GC run: pin index identical, every chunk with positive pin count still stored with identical bytes, every chunk written by a local upload (and not deleted since) still stored; non-trivial = a GC run actually deleted chunks while pinned or uploaded chunks existed; distinct by hash of the case")
+	r.SetRule("rapid: node-lite histories (2-4 files built from shared/repeated 256 KiB chunk templates; ops upload with/without pin header, cached download of chunk subsets from a source node via the calls retrieval makes, pin/unpin through HTTP and the pinning service, HTTP reads, delete, restart, synchronous GC runs with capacity 1-8 repeated until done, some with a read of a cached file at the run's interleaving hook between candidate selection and deletion); oracle around every GC run: pin index identical, every chunk with positive pin count still stored with identical bytes, every chunk written by a local upload (and not deleted since) still stored; non-trivial = a GC run actually deleted chunks while pinned or uploaded chunks existed; distinct by hash of the case")
 	if evid.Known(sigUpOverCache) {
 		wc := nlhist.Case{Files: []nodelite.FileSpec{{Tags: []int{2}, Tail: 4096}, {Tail: 9}},
 			Ops: []nlhist.Op{{K: "fetch", F: 0, Arg: 6}, {K: "upload", F: 0}, {K: "gc", Arg: 1}}}
